@@ -3,3 +3,43 @@ chk("C18",
     "Trusted: the two's-complement reference in props/c18.py. Widths above 10 use a boundary value menu (declared non-exhaustive in that dimension).",
     "bounded exhaustive input enumeration against a reference model (explicit-state, real code)",
     "DESIGN.md section 3 C18")
+chk("C01",
+    "Stateless exhaustive exploration of the real randomize paths: every program of grammar G1 (depth<=2 expressions over all operators, Boolean composition, if/else-if/else, implies, unique, enum fields, 2-statement programs in class block / second block / inline, all four call kinds) x every value of the non-random field x every environment-answer sequence with at most 1 (thorough: 2) non-default answers; plus the complete truth table of the lowering (all fields non-random: one entry per (statement, assignment)). Oracle: reference evaluator; returned values must satisfy every active hard statement and lie in the declared type.",
+    "Trusted: mc/ref.py (two readings, ambiguity filter: pairs where IEEE-1800 sizing and the per-node rule disagree are skipped and counted). Widths above 3 use template programs with boundary answer menus (non-exhaustive in the value dimension). Boolector determinism for a fixed assertion order.",
+    "deviation-bounded exhaustive exploration of environment answers on the real code + exhaustive truth table, against a reference model",
+    "DESIGN.md section 3 C01")
+chk("C02",
+    "Same explored space as C01 with the satisfiability oracle: the reference enumerates the random fields' value space for every program and every non-random value; a non-empty set forbids any exception, an empty set demands SolveFailure on every execution. The truth-table sub-check (all fields non-random) decides both directions per (statement, assignment).",
+    "Trusted: mc/ref.py; pairs whose satisfiability differs between the two readings are skipped and counted.",
+    "deviation-bounded exhaustive exploration of environment answers + exhaustive satisfiability reference",
+    "DESIGN.md section 3 C02")
+chk("C05",
+    "All combinations of a hard-statement menu and a soft-statement menu (guards via if/else/implies, class block vs inline), every answer sequence with <=1 non-default answer (thorough: complete trees for two-soft programs, bound 2 on a slice), two consecutive calls per execution. Oracle: exact greedy-by-priority reference over the enumerated value space; every result must lie in hard /\\ greedy set.",
+    "Trusted: greedy reference in props/c05.py written from the property statement (later wins, inline over class, guarded soft = guards -> soft).",
+    "deviation-bounded exhaustive exploration against an exact greedy reference",
+    "DESIGN.md section 3 C05")
+chk("C06",
+    "Explicit-state BFS over histories {create instance, randomize, randomize_with(inline set from a 9+5 entry menu incl. dynamic references, their &,|,~ compositions and indexed references through a list)} on a population of up to 4 roots; each randomizing step explored with <=2 non-default answers; reachable (a,b) pairs of every instance under the call must EQUAL the reference solution set, other instances untouched; hidden fingerprint (pretty-printed models, wrapper targets, shared stacks) turns any leftover trace into a new state.",
+    "Trusted: per-instance predicates in props/c06.py. Deviation bound 2 reaches every value pair of one instance (argument in DESIGN.md).",
+    "explicit-state BFS over API histories with deviation-bounded exploration of each randomizing step",
+    "DESIGN.md section 3 C06")
+chk("C07",
+    "Explicit-state BFS (depth 5 quick / 6 thorough) over histories {toggle a block of an instance on/off, create instance, randomize root} on Base/Derived(overrides c1)/nested/list-held instances; each randomize explored with <=1 non-default answer; per-field reachable value sets must EQUAL what the enabled most-derived blocks of that very instance allow; other instances untouched. State key = reference enabled map + per-instance block flags + class-level wrapper flags.",
+    "Trusted: ALLOWED table in props/c07.py. All constraints are per field, so per-field equality is exact.",
+    "explicit-state BFS over API histories with state merging on reference state + hidden fingerprint",
+    "DESIGN.md section 3 C07")
+chk("C14",
+    "(bounds) for every program of the C01/C02 core space, every non-random value and a menu of previous values, the range list captured at the Randomizer.randomize seam must contain every value of the reference solution set projected on each field; a field no constraint mentions must have its whole type. (support) complete answer trees of ~250 one-field and two-field programs: every feasible value must be produced by some answer sequence.",
+    "Trusted: mc/ref.py; seam = wrapping Randomizer.randomize by name (fails closed if it disappears). Soft constraints are excluded from this oracle.",
+    "exhaustive comparison of captured inferred ranges with enumerated solution sets + complete-tree support check",
+    "DESIGN.md section 3 C14")
+chk("C15",
+    "Every weight list of 1-3 entries (values/ranges, weights 0..3 or from a non-random field, signed and unsigned fields) alone and with accompanying constraints, explored over the COMPLETE tree of answers with exact Fraction probabilities (mass sums to 1, asserted): zero-weight/unlisted mass is 0; unconstrained dist has P(entry)=w/total, uniform inside ranges (exact equality). distselect/randselect over all weight vectors of length <=4: exact P(i)=w_i/total.",
+    "Trusted: each randint() is uniform (CPython random). Programs whose tree exceeds the cap are counted, never judged.",
+    "complete-tree exploration with exact outcome distributions",
+    "DESIGN.md section 3 C15")
+chk("C20",
+    "156+ programs with ordering directives (single, list form, a before [b,c], chains), complete answer trees, exact distributions: support == reference solution set; uniform marginal of a when F_a == D_a; pair relation: equal (type of a, F_a, D_a) implies equal exact marginal of a across programs with different b-sides.",
+    "Trusted: mc/ref.py for solution sets; D_a captured at the Randomizer.randomize seam.",
+    "complete-tree exploration with exact outcome distributions and a relational (pairwise) oracle",
+    "DESIGN.md section 3 C20")
